@@ -60,8 +60,10 @@ CHECKS = {
          "4/C10", "Rocq proof (never-a-value from the ledger, help lookup lemma, refutation witness) over a hand-written model + differential correspondence + help-position oracle"),
  "C03": ("proof", "PARTIAL. Theorems in coq/Props/C03.v (all named *_partial): tokenisation is local, so reordering whole occurrences "
          "reorders their token groups and changes nothing else; named consumers search the whole scope and take the leftmost "
-         "match; a flag's value does not depend on position; positional consumers skip named items. The full statement "
-         "(whole-run invariance under the constrained permutations) is kept visible in the file and is decided by the "
+         "match; a flag's value does not depend on position; positional consumers skip named items. FULL for conventional flat "
+         "levels: C03_order_irrelevant_flat -- the outcome depends on the vector only through each item's own occurrence sequence "
+         "and the positional word sequence (via C01's refinement theorem). For parsers outside the conventional fragment the "
+         "whole-run invariance under the constrained permutations is decided by the "
          "metamorphic oracle (random constrained permutations of generated sentences) and the differential run." + DIFF,
          "4/C03", "Rocq proof of the two mechanisms (partial) over a hand-written model + differential correspondence + permutation oracle"),
  "C18": ("proof", "Theorems in coq/Props/C18.v: C18_frame -- for EVERY parser and vector, two environments that agree on the declared "
@@ -146,7 +148,10 @@ CHECKS = {
  "C04": ("proof", "PARTIAL. Theorems in coq/Props/C04.v: the ledger bound `remaining <= number of items` holds initially and is kept by "
          "the evaluation of every parser from every state (through Reach.eval_reach_all), the item list is never changed; with "
          "it, the repetition loops (many/collect, some, count, last) never exhaust the fuel the model gives them -- the "
-         "consumed-something rule makes `len` strictly decrease -- for every inner parser. NOT theorems: termination of the "
+         "consumed-something rule makes `len` strictly decrease -- for every inner parser. C04_flat_fragment_total / "
+         "C04_flat_level_total: the whole flat fragment (flags, arguments, positionals, construct!, optional/many/some/count/last/"
+         "fallback, nested) on full-scope states and every conventional flat level on every argv yield a value or an error: no "
+         "panic outcome, no fuel exhaustion. NOT theorems: termination of the "
          "adjacent-group retry loop (fuelled; FUEL is a distinct outcome in the differential run), absence of panics (explicit "
          "panic outcomes at every slicing/subtraction/unreachable site of the model are compared with the implementation; one "
          "class is a known finding, two were repaired by fix: commits), purity (by construction in Gallina; tied by re-running). "
